@@ -4,6 +4,7 @@ package main
 // are registered under each of them (same construct keys, different rule ids).
 
 import (
+	"os"
 	"fmt"
 	"go/token"
 	"go/types"
@@ -823,20 +824,43 @@ func checkUnwindCoversStep(c *Ctx, rule string) {
 			}
 		}
 		walk(arg)
+		if os.Getenv("SHOVELCHECK_DEBUG") != "" {
+			fmt.Fprintf(os.Stderr, "unwind: cells=%v leaves=%v\n", cells, leaves)
+			for _, f := range reg.Funcs() { fmt.Fprintf(os.Stderr, "  region fn %s\n", f) }
+		}
 		for _, l := range leaves {
 			b, isB := l.(*ssa.BinOp)
 			if !isB || b.Op != token.ADD {
 				continue
 			}
 			n, okc := constInt(b.Y)
-			u, isU := b.X.(*ssa.UnOp)
-			if !okc || n != 1 || !isU {
+			if !okc || n != 1 {
 				continue
 			}
-			for _, cell := range cells {
-				if stripConv(cell) == u.X {
-					ok = true
+			// the position read by the query: a load of a scan destination, possibly handed out by
+			// a helper (whose not-found/error returns carry a constant instead)
+			nLoad, other := 0, false
+			for _, pv := range reg.Leaves(b.X) {
+				if _, isConst := pv.(*ssa.Const); isConst {
+					continue
 				}
+				u, isU := pv.(*ssa.UnOp)
+				hit := false
+				if isU {
+					for _, cell := range cells {
+						if stripConv(cell) == u.X {
+							hit = true
+						}
+					}
+				}
+				if hit {
+					nLoad++
+				} else {
+					other = true
+				}
+			}
+			if nLoad > 0 && !other {
+				ok = true
 			}
 		}
 		keyed := false
